@@ -40,6 +40,9 @@ def build_pool(seed, tier, n_corpus=None, n_synth=None, n_ops=None, want_values=
             'synthetic': sum(1 for e in admitted if e['src'] == 'synth'),
             'operator_templates': sum(1 for e in admitted if e['src'] == 'operator'),
             'table_d_sequences': sum(1 for e in admitted if e.get('opkind') == 'table-d-sequence'),
+            'table_d_programs_distinct': len(set(e['ref'].split(':v')[1][:10] for e in admitted
+                                                 if e.get('opkind') == 'table-d-sequence')),
+            'table_d_sweep_complete': n_tabled < 0,
             'rejected': len(rejected), 'rejected_refs': [r['ref'] for r in rejected][:10],
             'pool_mismatch': mismatches[:10]}
     return admitted, info
